@@ -20,7 +20,7 @@ MCSpec == MCInit /\ [][MCNext]_mcvars
 MonOK   == mon.bad = ""
 IdleOK  == IsIdle(s) => M!Idle(mon).bad = ""
 \* the monitor's ghost agrees with the store whenever the loop is idle (strengthens C05)
-StoreTruth == IsIdle(s) => \A k \in s.found : mon.live[k] # 0
+StoreTruth == IsIdle(s) => \A k \in s.store["found"] : mon.live[k] # 0
 
 \* ---- constants of the configurations (cfg files substitute these) ----
 InputsOf(srcs, svcs, ttls) ==
@@ -30,25 +30,21 @@ WatchOps(lsts, flts) ==
   {[op |-> o, lst |-> l, flt |-> f] : o \in {"watch", "unwatch"}, l \in lsts, f \in flts}
 
 Q_Match  == [F2 |-> {"s1"}, ALL |-> {"s1", "s2"}]
-Q_Cfg    == [srcs |-> <<"a1">>, svcs |-> <<"s1", "s2">>, lsts |-> <<"L1", "L2">>, maxId |-> 3,
+Q_Cfg    == [srcs |-> <<"a1">>, svcs |-> <<"s1", "s2">>, lsts |-> <<"L1", "L2">>, maxId |-> 3, timerPhase |-> FALSE,
              watch0 |-> [L1 |-> {"ALL"}, L2 |-> {"F2"}]]
 Q_Inputs == InputsOf({"a1"}, {"s1", "s2"}, {0, 1, 2, FOREVER})
 
-T_Cfg    == [srcs |-> <<"a1", "a2">>, svcs |-> <<"s1", "s2">>, lsts |-> <<"L1", "L2">>, maxId |-> 3,
+T_Cfg    == [srcs |-> <<"a1", "a2">>, svcs |-> <<"s1", "s2">>, lsts |-> <<"L1", "L2">>, maxId |-> 3, timerPhase |-> FALSE,
              watch0 |-> [L1 |-> {"ALL"}, L2 |-> {}]]
 T_Inputs == InputsOf({"a1", "a2"}, {"s1", "s2"}, {0, 1, 2, FOREVER})
               \cup WatchOps({"L2"}, {"F2"}) \cup {[op |-> "connlost"]}
 
-W_Cfg    == [srcs |-> <<"a1">>, svcs |-> <<"s1">>, lsts |-> <<"L1", "L2">>, maxId |-> 3,
+W_Cfg    == [srcs |-> <<"a1">>, svcs |-> <<"s1">>, lsts |-> <<"L1", "L2">>, maxId |-> 3, timerPhase |-> FALSE,
              watch0 |-> [L1 |-> {"ALL"}, L2 |-> {}]]
 W_Inputs == InputsOf({"a1"}, {"s1"}, {0, 2, FOREVER}) \cup WatchOps({"L1"}, {"ALL"}) \cup WatchOps({"L2"}, {"F2"})
 
-NoSw == [DeferExpiryNotify |-> FALSE, DeferStopAllNotify |-> FALSE, DeferRebootFanout |-> FALSE,
-         IgnoreWhenUnwatched |-> FALSE, DeferWatchReplay |-> FALSE,
-         DeferHandleOffer |-> FALSE]
-Shipped == [DeferExpiryNotify |-> TRUE, DeferStopAllNotify |-> TRUE, DeferRebootFanout |-> TRUE,
-            IgnoreWhenUnwatched |-> TRUE, DeferWatchReplay |-> TRUE,
-            DeferHandleOffer |-> TRUE]
+NoSw == AllOff
+Shipped == AsShipped
 SwD1 == [NoSw EXCEPT !.DeferExpiryNotify = TRUE, !.DeferHandleOffer = TRUE]
 SwD2 == [NoSw EXCEPT !.DeferStopAllNotify = TRUE]
 SwD3 == [NoSw EXCEPT !.DeferRebootFanout = TRUE]
